@@ -5,13 +5,21 @@
 (* application arms / disarms a flag, signals are delivered, the process   *)
 (* exits.  A history is a sequence over                                    *)
 (*    "a" arm (flag := TRUE)   "d" disarm   "u" usize flag := 3   "r" a    *)
-(*    delivery of the signal.                                              *)
+(*    delivery of the signal   "w" a delivery of a second signal whose    *)
+(*    default action is to ignore it (SIGWINCH) and which carries a       *)
+(*    conditional default on the same flag.                               *)
+(* register_conditional_default (flag.rs:218-236) is a conditional        *)
+(* shutdown whose termination is the signal's own default action: kind =  *)
+(* "term" dies by the signal, kind = "ign" does nothing; it only *reads*  *)
+(* the flag.                                                              *)
 (* Run(order, ops, status) is what an observer must see: the values read   *)
 (* after every surviving delivery, and how the process ends.               *)
 (***************************************************************************)
 EXTENDS Naturals, Sequences, TLC
 
-Orders == {"shutdown_first", "flag_first", "shutdown_only", "flag_only"}
+Orders == {"shutdown_first", "flag_first", "shutdown_only", "flag_only",
+           "default_first", "default_only", "shared_winch"}
+Kinds == {"term", "ign"}
 
 \* The actions registered for the signal, in registration order (the usize flag comes first).
 Actions(order) ==
@@ -19,32 +27,49 @@ Actions(order) ==
     (CASE order = "shutdown_first" -> <<"shutdown", "flag">>
        [] order = "flag_first" -> <<"flag", "shutdown">>
        [] order = "shutdown_only" -> <<"shutdown">>
+       [] order = "default_first" -> <<"conddefault", "flag">>
+       [] order = "default_only" -> <<"conddefault">>
+       [] order = "shared_winch" -> <<"shutdown">>
        [] OTHER -> <<"flag">>)
+\* The actions of the second signal ("w"): only "shared_winch" registers one.
+WActions(order) == IF order = "shared_winch" THEN <<"conddefault_ign">> ELSE << >>
 
-\* One delivery: run the actions in order; st = [term, usz, dead].
-RECURSIVE RunActions(_, _)
-RunActions(acts, st) ==
+\* One delivery: run the actions in order; st = [term, usz, dead, how]
+\* (how = "exit": _exit(status) by the conditional shutdown; "signal": killed by the signal's
+\* default action through the conditional default).
+RECURSIVE RunActions(_, _, _)
+RunActions(acts, st, kind) ==
     IF acts = << >> \/ st.dead THEN st
     ELSE LET a == Head(acts)
              st2 == CASE a = "usize" -> [st EXCEPT !.usz = 7]
                       [] a = "flag" -> [st EXCEPT !.term = TRUE]
-                      [] OTHER -> IF st.term THEN [st EXCEPT !.dead = TRUE] ELSE st
-         IN RunActions(Tail(acts), st2)
+                      [] a = "shutdown" -> IF st.term THEN [st EXCEPT !.dead = TRUE, !.how = "exit"]
+                                           ELSE st
+                      [] a = "conddefault" -> IF st.term /\ kind = "term"
+                                              THEN [st EXCEPT !.dead = TRUE, !.how = "signal"]
+                                              ELSE st
+                      [] OTHER -> st     \* conddefault_ign: the default action is to do nothing
+         IN RunActions(Tail(acts), st2, kind)
 
-\* The whole history: returns [steps, exited_in_handler].
-RECURSIVE RunOps(_, _, _, _)
-RunOps(order, ops, st, steps) ==
-    IF ops = << >> \/ st.dead THEN [steps |-> steps, dead |-> st.dead]
+\* The whole history: returns [steps, dead, how].
+RECURSIVE RunOps(_, _, _, _, _)
+RunOps(order, ops, st, steps, kind) ==
+    IF ops = << >> \/ st.dead THEN [steps |-> steps, dead |-> st.dead, how |-> st.how]
     ELSE LET o == Head(ops) IN
-         CASE o = "a" -> RunOps(order, Tail(ops), [st EXCEPT !.term = TRUE], steps)
-           [] o = "d" -> RunOps(order, Tail(ops), [st EXCEPT !.term = FALSE], steps)
-           [] o = "u" -> RunOps(order, Tail(ops), [st EXCEPT !.usz = 3], steps)
+         CASE o = "a" -> RunOps(order, Tail(ops), [st EXCEPT !.term = TRUE], steps, kind)
+           [] o = "d" -> RunOps(order, Tail(ops), [st EXCEPT !.term = FALSE], steps, kind)
+           [] o = "u" -> RunOps(order, Tail(ops), [st EXCEPT !.usz = 3], steps, kind)
+           [] o = "w" ->
+              LET st2 == RunActions(WActions(order), st, "ign") IN
+              RunOps(order, Tail(ops), st2,
+                     Append(steps, <<"W", IF st2.term THEN 1 ELSE 0, st2.usz>>), kind)
            [] OTHER ->
-              LET st2 == RunActions(Actions(order), st) IN
+              LET st2 == RunActions(Actions(order), st, kind) IN
               RunOps(order, Tail(ops), st2,
                      IF st2.dead THEN steps
-                     ELSE Append(steps, <<"R", IF st2.term THEN 1 ELSE 0, st2.usz>>))
+                     ELSE Append(steps, <<"R", IF st2.term THEN 1 ELSE 0, st2.usz>>), kind)
 
-Run(order, ops) == RunOps(order, ops, [term |-> FALSE, usz |-> 0, dead |-> FALSE], << >>)
+St0 == [term |-> FALSE, usz |-> 0, dead |-> FALSE, how |-> "none"]
+Run(order, ops, kind) == RunOps(order, ops, St0, << >>, kind)
 
 =============================================================================
